@@ -254,6 +254,13 @@ func childMain(cfgPath string) {
 		l2.InstallHooks()
 		wd := filepath.Join(cfg.Dir, "wd")
 		_ = os.MkdirAll(wd, 0755)
+		// another validator instance of the same process uses memory storage (two server blocks with
+		// different storage types); it is provisioned first and stays alive, it must not matter
+		wdMem := filepath.Join(cfg.Dir, "wd-memory-neighbour")
+		_ = os.MkdirAll(wdMem, 0755)
+		if neighbour, nerr := l2.Start(l2.Opts{WorkDir: wdMem, Storage: "memory", SigMode: "verify", Fetch: "actively", Logger: l2.DebugLogger()}); nerr == nil {
+			defer neighbour.Stop()
+		}
 		chk, err := l2.Start(l2.Opts{WorkDir: wd, Storage: "disk", SigMode: "verify", Fetch: "actively", Strict: true, Logger: l2.DebugLogger()})
 		if err != nil {
 			out.Err = err.Error()
@@ -326,7 +333,7 @@ func main() {
 		return
 	}
 	run := report.New("C17", "exploration")
-	run.Rule("cases = component{streaming reader with a counting consumer, URL loader, file loader, full disk path download->parse->store->lookup} x N x encoding{DER, PEM}; each case runs in its own child process with runtime.MemProfileRate=16 KiB while a sampler forces two GCs and reads the heap profile every ~20 ms; in-use bytes are attributed by allocation site: goleveldb/snappy frames = dependency budget, any other record with a repository frame = the repository's own retention; oracle: repository-attributed in-use <= 1 MiB in every sample at every N, goleveldb-attributed <= 96 MiB, median HeapAlloc of the second half of the run <= 64 MiB, listed serials of the big CRL are rejected and an unlisted one accepted on the disk path; non-trivial = case with >= 10 samples taken while the component was making progress; distinct = case descriptor")
+	run.Rule("cases = component{streaming reader with a counting consumer, URL loader, file loader, full disk path download->parse->store->lookup, with a second validator instance on memory storage alive in the same process} x N x encoding{DER, PEM}; each case runs in its own child process with runtime.MemProfileRate=16 KiB while a sampler forces two GCs and reads the heap profile every ~20 ms; in-use bytes are attributed by allocation site: goleveldb/snappy frames = dependency budget, any other record with a repository frame = the repository's own retention; oracle: repository-attributed in-use <= 1 MiB in every sample at every N, goleveldb-attributed <= 96 MiB, median HeapAlloc of the second half of the run <= 64 MiB, listed serials of the big CRL are rejected and an unlisted one accepted on the disk path; non-trivial = case with >= 10 samples taken while the component was making progress; distinct = case descriptor")
 	run.Assume("all components run with a debug-level logger that discards its output, so that code which only runs when debug logging is enabled is included", "heap profile reflects the last completed GC (two forced GCs precede every read)", "goleveldb's own bounded caches and write buffers are a trusted dependency budget")
 	scratch, _ := report.Scratch("C17")
 	bin := os.Getenv("VERIF_ENGINE_BIN")
